@@ -52,6 +52,33 @@ def apply_variant(root: str, v: dict) -> None:
             compile(src, path, "exec")  # the variant must still be valid Python
 
 
+def keys_of(out: str) -> set:
+    ks = set()
+    for line in out.splitlines():
+        line = line.strip()
+        if line.startswith("instance: "):
+            ks.add(line[len("instance: "):])
+        elif line.startswith("KNOWN-FINDING: "):
+            parts = line.split()
+            if len(parts) >= 3:
+                ks.add(parts[2])
+    return ks
+
+
+BASELINE = {}
+
+
+def baseline(prop: str, tier: str) -> set:
+    k = (prop, tier)
+    if k not in BASELINE:
+        rd = tempfile.mkdtemp(prefix="pqstatic-base-")
+        p = subprocess.run([os.path.join(VERIF, "check"), prop, "--tier", tier, "--repo", REPO, "--no-evidence",
+                            "--replay-dir", rd], capture_output=True, text=True, timeout=900)
+        shutil.rmtree(rd, ignore_errors=True)
+        BASELINE[k] = (keys_of(p.stdout), p.returncode, "ANALYSIS-ERROR" in p.stdout)
+    return BASELINE[k]
+
+
 def run_variant(v: dict, base: str, verbose: bool) -> dict:
     root = tempfile.mkdtemp(prefix=f"v-{v['id']}-", dir=base)
     os.rmdir(root)
@@ -68,14 +95,18 @@ def run_variant(v: dict, base: str, verbose: bool) -> dict:
         exp = v["expect"]
         ok = False
         why = ""
+        bkeys, bcode, berr = baseline(v["property"], v.get("tier", "quick"))
+        new = keys_of(out) - bkeys
         if exp == "silent":
-            ok = code == 0 and "VIOLATION" not in out
-            why = "" if ok else f"expected silence, got exit {code}"
+            ok = not new and "ANALYSIS-ERROR" not in out and code == bcode
+            why = "" if ok else f"expected no new report, got exit {code} (baseline {bcode}) new={sorted(new)[:3]}"
         else:
-            # expect = {"rule": "C12a", "contains": "substring of the report"}
-            fired = code == 1 and "VIOLATION property=" + v["property"] in out
-            ok = fired and exp.get("rule", "") in out and exp.get("contains", "") in out
-            why = "" if ok else f"expected rule {exp.get('rule')} / `{exp.get('contains','')}`; exit {code}"
+            # expect = {"rule": "C12a", "contains": "substring of the new report's key/message"}
+            fired = code == 1 and bool(new)
+            hit = [k for k in new if k.startswith(exp.get("rule", ""))]
+            ok = fired and bool(hit) and (exp.get("contains", "") in " ".join(hit) or any(
+                exp.get("contains", "") in l for l in out.splitlines() if "[" + exp.get("rule", "") in l))
+            why = "" if ok else f"expected rule {exp.get('rule')} / `{exp.get('contains','')}`; exit {code}; new={sorted(new)[:3]}"
         res = {"id": v["id"], "property": v["property"], "kind": "preserving" if exp == "silent" else "breaking",
                "ok": ok, "exit": code, "why": why}
         if verbose or not ok:
